@@ -131,6 +131,9 @@ OnRetWith(c, e) ==
                     \cup Chk(~(st.comp.trk /\ st.comp.fb) \/ Cardinality(TrkAllocs(st.trks)) = 1, "C09", "TrackerSeesEachSuccessOnce", <<c.op, Len(st.trks)>>)
                     \cup Chk(st.comp.name \notin TrackerOutermost \/ c.sz = 0 \/ TrkArgsOk(st.trks, {"na", "aa"}, c),
                              "C09", "TrackerToldWhatWasAsked", <<c.op, c.n, c.sz, c.al, st.trks>>)
+                    \* fb_tracked: the tracker sits on the default allocator (leaf 1): a request the fallback served is none of its business
+                    \cup Chk(~(st.comp.name = "fb_tracked" /\ okA # {} /\ lf.L # 1) \/ TrkAllocs(st.trks) = {},
+                             "C09", "TrackerSeesEachSuccessOnce", <<"callback for a request the tracked allocator did not serve", c.op, lf.L>>)
                     \cup Chk(TrkDeallocs(st.trks) = {}, "C09", "TrackerSeesEachSuccessOnce", <<"dealloc callback during allocation">>))
           ELSE Result(done,
                  Chk(okA = {}, "C09", "FailedRequestLeavesNothing", <<c.op, e.r>>)
@@ -160,6 +163,8 @@ OnRetWith(c, e) ==
                                 "C09", "TrackerSeesEachSuccessOnce", <<c.op, Len(st.trks)>>)
                        \cup Chk(st.comp.name \notin TrackerOutermost \/ c.sz = 0 \/ TrkArgsOk(st.trks, {"nd", "ad"}, c),
                                 "C09", "TrackerToldWhatWasAsked", <<c.op, c.n, c.sz, c.al, st.trks>>)
+                       \cup Chk(~(st.comp.name = "fb_tracked" /\ rq.by = "leaf" /\ rq.L # 1) \/ TrkDeallocs(st.trks) = {},
+                                "C08", "FalseChangesNothing", <<"tracker of the default allocator told about foreign memory", c.op, rq.L>>)
                        \cup Chk(TrkAllocs(st.trks) = {}, "C09", "TrackerSeesEachSuccessOnce", <<"alloc callback during release">>))
 
 OnRet(e) == LET r == OnRetWith(st.call, e) IN Result(r.s, r.v \cup DeepOk("ret"))
